@@ -171,6 +171,14 @@ let () = iter_lines (fun line ->
         let sch = get (next ()) in let id = next_z () in
         let s = parse_struct () in
         show print_gval (extract_struct fixed fuel sch id s)
+      | "ext2" ->
+        (* two extractions into one destination: the second result is a function of the second message only *)
+        let sch = get (next ()) in let id = next_z () in
+        let sa = parse_struct () in
+        let sb = parse_struct () in
+        (match extract_struct fixed fuel sch id sa with
+         | Ok _ -> show print_gval (extract_struct fixed fuel sch id sb)
+         | Err -> "err1" | Panic -> "panic1" | Unmodelled -> "unmodelled" | OutOfFuel -> "fuel")
       | "gen" ->
         let sch = get (next ()) in let id = next_z () in
         let s = parse_struct () in
